@@ -61,8 +61,17 @@ fn seal(c: &Ctx, b: BlockView) -> BlockView {
     builder::reseal(&c.gi.consensus, b)
 }
 
+/// Replace the body's transactions. The dao field depends on the body: it is recomputed with the
+/// production calculator whenever the new body resolves on the parent, so that the mutant differs
+/// from a valid block in the mutated rule only (a stale dao field would get it refused anyway and
+/// hide a missing check).
 fn set_txs(c: &Ctx, b: &BlockView, txs: Vec<TransactionView>) -> BlockView {
-    seal(c, b.as_advanced_builder().set_transactions(txs).build())
+    let nb = b.as_advanced_builder().set_transactions(txs).build();
+    let nb = match builder::recompute_dao(&c.tg.b.shared, &nb) {
+        Some(dao) => nb.as_advanced_builder().dao(dao).build(),
+        None => nb,
+    };
+    seal(c, nb)
 }
 
 fn dao_component(c: &Ctx, b: &BlockView, idx: usize, up: bool) -> Option<BlockView> {
@@ -566,6 +575,37 @@ pub fn run(args: &Args) -> i32 {
             }
             tg.extend(&t);
         }
+        // window ladder (every second context): w_far + 2 further blocks, each proposing its own
+        // probe transaction and committing nothing, so that the candidate's parent chain holds an
+        // uncommitted proposal at EVERY distance 1 ..= w_far + 2 (too recent / exactly w_close /
+        // exactly w_far / expired by one)
+        if ci % 2 == 1 && !params.eaglesong {
+            tg.cfg.commit_skip_pm = 1000;
+            tg.cfg.max_new_txs = 0;
+            tg.cfg.uncle_pm = 0;
+            let (_, w_far) = tg.rc.window;
+            let mut t = tg.tip();
+            let st0 = tg.rc.replay(&t);
+            let mut cells: Vec<((H, u32), u64)> = st0
+                .cells
+                .iter()
+                .filter(|(_, c)| {
+                    c.block_number == 0
+                        && packed::CellOutput::from_slice(&c.output)
+                            .map(|o| o.type_().to_opt().is_none() && o.lock().code_hash() == gi.always_success_script.code_hash() && o.lock().hash_type() == gi.always_success_script.hash_type())
+                            .unwrap_or(false)
+                })
+                .map(|(k, c)| (*k, packed::CellOutput::from_slice(&c.output).unwrap().capacity().into()))
+                .collect();
+            cells.sort();
+            for i in 0..(w_far + 2) {
+                let Some((k, cap)) = cells.pop() else { break };
+                tg.keep.insert(k);
+                let probe = builder::build_tx(&gi, &[(packed::OutPoint::new(packed::Byte32::from_slice(&k.0).unwrap(), k.1), 0)], &[builder::OutSpec { capacity: cap - 5000, lock: builder::lock_with_args(&gi, &[0x1A]), type_: None, data: vec![0x1A, i as u8, ci as u8] }], &[], &[], None);
+                t = tg.extend_ex(&t, &[probe]);
+            }
+            r.count("contexts_with_window_ladder");
+        }
         let parent = tg.tip();
         let now = tg.rc.get(&parent).block.timestamp() + NOW_AHEAD;
         vnode::node::set_time(now);
@@ -733,6 +773,11 @@ pub fn run(args: &Args) -> i32 {
         }
     }
     r.require("contexts", 3);
+    if n_ctx >= 8 {
+        r.require("contexts_with_window_ladder", 1);
+        r.require("mutants.commit.proposal_expired", 1);
+        r.require("valid_variants.valid.commit_at_exactly_w_far", 1);
+    }
     r.require("rejected_by_header_check", 5);
     r.require("rejected_by_chain_service", 20);
     r.require("valid_accepted", 5);
